@@ -396,6 +396,7 @@ inductive Op
   | ballast (k : Nat)                  -- other queued data now takes k units of the historic memory budget
   | diskOk (b : Bool)                  -- disk cache switched off/on at run time (MaxHistoricDiskSize = 0, write errors)
   | bad (r : Nat)                      -- an undecodable sendSourceBucket3 request reaches replica r
+  | erase (now : Nat) (over : Bool)   -- one pass of the fail-safe eraser goEraseHistoric; `over`: this shard's disk usage exceeds its share
   | tickRace (r now1 now2 rid : Nat) (ok : Bool)
       -- replica r: the ticker fires at now1; the inserter of the first ready bucket takes its oldestTime snapshot and is then
       -- delayed (estimator, budgets, sendMu); meanwhile the ticker fires again at now2 and request `rid` (historic, for
@@ -663,6 +664,7 @@ def step (s : State) : Op → State × List Ev
   | .diskOk b => ({ s with ag := { s.ag with diskOk := b } }, [])
   | .bad r => stepBad s r
   | .tickRace r now1 now2 rid ok => stepTickRace s r now1 now2 rid ok
+  | .erase now over => ({ s with ag := eraserStep s.ag now over }, [])
 
 def initAgent (disk saveFirst : Bool) (now window : Nat) : Agent :=
   { hist := [], recs := [], lastId := 0, disk := disk, saveFirst := saveFirst, memSize := 0, ballast := 0, diskOk := true, flights := [],
